@@ -8,6 +8,35 @@ HERE = os.path.dirname(os.path.dirname(os.path.abspath(__file__)))
 
 # id -> (technique, level text, level note, design ref)
 CHECKS = {
+    "C06": (
+        "exhaustive enumeration of all ordered pairs of pooled lattice geometries (all 81 type combinations) x admissible buffer pairs x time shifts on the real compute_affinity against Fraction IoU models",
+        "All ordered pairs of 69 (quick) / 240 (thorough, incl. a non-dyadic offset lattice) pooled geometries x every admissible buffer pair x the default buffers x shifts {0, 1, 2.5}; "
+        "range [0,1] exact, symmetry, self-affinity, zero when disjoint in time (or in frequency for planar kinds), exact box IoU, exact time-extent IoU for time-only kinds, shift invariance.",
+        "General polygon pairs have no exact area model (range/symmetry/self/disjoint/shift only). Buffered extents of thin kinds are read from buffer_geometry (decided by C11). Zero buffers with thin kinds are outside the quantifier.",
+        "DESIGN.md 4/C06",
+    ),
+    "C07": (
+        "exhaustive enumeration of all pairs of geometry lists up to length 3 (quick) / 4 (thorough) over a pool, on the real match_geometries against a brute-force optimum over all partial injective pairings",
+        "Every (source, target) list pair with lengths 0..3 x 0..3 over a pool of 6 geometries (134 162 cases; thorough adds lengths <= 4 over 5 and a 7-type pool), default and one non-default buffer pair: "
+        "every index exactly once, pairs only with positive affinity, reported affinity == compute_affinity of the pair, total == brute-force optimum (exact Fractions).",
+        "The affinity matrix itself is C06's subject. Lists longer than 4 are not covered.",
+        "DESIGN.md 4/C07",
+    ),
+    "C09": (
+        "exhaustive enumeration of small evaluation problems (4 tasks x vocabulary size 1..3 x item lists x true-tag / score-vector alphabets) on the real task functions against pure-Python metric definitions, plus all clip-order permutations and an AOEF round trip per case",
+        "Each case is evaluated by the real task function; metric terms must be pairwise distinct at evaluation / clip / match level; each value must equal the independently computed metric named by its term "
+        "(accuracy, balanced accuracy, top-3 accuracy, mAP, AP, Jaccard, true-class probability; exact Fractions, 1e-6); scores aggregate as means; every permutation of the prediction list and the reversed annotation list gives the same result; "
+        "save/load through AOEF preserves every (label, value) at all three levels.",
+        "Ties in arg-max/top-3, classes without positives (AP), empty-vs-empty Jaccard are degenerate and not judged (counted). Inputs without any evaluated item are outside the quantifier.",
+        "DESIGN.md 4/C09",
+    ),
+    "C16": (
+        "exhaustive product start x step x n x constructor form; all lookup queries per axis; BFS depth 2/3 over write sequences to every cell/slice address, on the real arrays functions against an integer lattice-index model",
+        "Range constructors over starts/steps incl. 0.1, 1/3, 1/44100 and n up to 4410 (44100 thorough) through all five constructor forms: exact count for whole quotients, coordinates within 1e-9 step of start+i*step, inside [start, stop), step attribute; "
+        "get_coord_index on every coordinate, midpoint, neighbouring double and edge query with both raise_error settings against the index model; set_value_at_pos write sequences of depth 2 (3 thorough) to every cell and slice address of 1-3 dimensional arrays.",
+        "The number of coordinates when (stop-start)/step is not whole is not fixed by the statement and is not judged (recorded in the histogram). float32 dtype and irregular axes are not covered.",
+        "DESIGN.md 4/C16",
+    ),
     "C08": (
         "exhaustive small-scope enumeration of detection problems (all event lists <= 2 x 2 per clip over geometry x tag/score alphabets; all two-slot clip presence patterns x presets x orders x vocabularies) on the real sound_event_detection, with an independent re-derivation of every reported quantity",
         "Every annotated/predicted event list of length <= 2 per side over {none, A, B, C} geometries x tag sets / score vectors in one clip, and every presence pattern of two clip slots x 6 presets x 2 list orders x 3 vocabularies, "
